@@ -36,23 +36,183 @@ type Input struct {
 	TextFile string   `json:"text_file,omitempty"` // metrics admission conversion
 	Parts    []string `json:"parts,omitempty"`
 	Mut      string   `json:"mut,omitempty"` // mutation kind that produced the text (tag only)
+	// the operator's OWN environment while it loads and runs the hook (set with os.Setenv before
+	// the operator is assembled, restored afterwards), in this order
+	Env []EnvVar `json:"env,omitempty"`
+}
+
+// EnvVar is one variable of the operator's own environment.  Var 0..5 are the six contract
+// variables (the model's numbering, see contractVars), Var >= 6 an unrelated variable.  For a
+// contract variable the value is a path in a directory that is NOT the operator's temp directory:
+// Val%3 == 0 no such file, 1 an existing empty file, 2 an existing file with content (for
+// BINDING_CONTEXT_PATH: a context list that is not the task's).
+type EnvVar struct {
+	Var int `json:"var"`
+	Val int `json:"val"`
+}
+
+// index = the model's variable number (C12_Model.var_*)
+var contractVars = []string{"BINDING_CONTEXT_PATH", "METRICS_PATH", "CONVERSION_RESPONSE_PATH", "VALIDATING_RESPONSE_PATH", "ADMISSION_RESPONSE_PATH", "KUBERNETES_PATCH_PATH"}
+
+// infix of the temp-file name each variable must point to, and the model's file number (creation order)
+var ownInfix = []string{"-binding-context-", "-metrics-", "-admission-response-", "-conversion-response-", "-object-patch-"}
+
+func varName(k int) string {
+	if k < len(contractVars) {
+		return contractVars[k]
+	}
+	// the scripted hook reports the variables whose names end in _PATH
+	return fmt.Sprintf("VERIF_C12_U%d_PATH", k)
+}
+
+func (e EnvVar) value(foreignDir string) string {
+	if e.Var < len(contractVars) {
+		return filepath.Join(foreignDir, fmt.Sprintf("v%d-%d", e.Var, e.Val))
+	}
+	return fmt.Sprintf("/verif-c12/u%d/%d", e.Var, e.Val)
+}
+
+const foreignContext = `[{"binding":"b1","type":"Schedule","foreign":true}]`
+
+// EnvVal is what the hook process finds under one variable, in the model's vocabulary.
+type EnvVal struct {
+	Var  int    `json:"var"`
+	Kind string `json:"kind"` // absent own foreign unknown
+	N    int    `json:"n"`    // own: file number; foreign: the value number
+	Raw  string `json:"raw,omitempty"`
+}
+
+// setOperatorEnv puts in.Env into the environment of this process (the operator runs in-process)
+// and removes the contract variables the case does not mention; the returned function restores
+// the previous state and removes the foreign directory.
+func setOperatorEnv(in Input) (foreignDir string, paths []string, restore func(), err error) {
+	type saved struct {
+		name string
+		val  string
+		had  bool
+	}
+	var olds []saved
+	seen := map[string]bool{}
+	save := func(name string) {
+		if seen[name] {
+			return
+		}
+		seen[name] = true
+		v, had := os.LookupEnv(name)
+		olds = append(olds, saved{name, v, had})
+	}
+	for _, n := range contractVars {
+		save(n)
+		os.Unsetenv(n)
+	}
+	restore = func() {
+		for _, o := range olds {
+			if o.had {
+				os.Setenv(o.name, o.val)
+			} else {
+				os.Unsetenv(o.name)
+			}
+		}
+		if foreignDir != "" {
+			os.RemoveAll(foreignDir)
+		}
+	}
+	if len(in.Env) == 0 {
+		return "", nil, restore, nil
+	}
+	foreignDir, err = os.MkdirTemp("", "c12foreign")
+	if err != nil {
+		return "", nil, restore, err
+	}
+	for _, e := range in.Env {
+		name, val := varName(e.Var), e.value(foreignDir)
+		save(name)
+		if e.Var < len(contractVars) {
+			paths = append(paths, val)
+			switch e.Val % 3 {
+			case 1:
+				os.WriteFile(val, nil, 0o644)
+			case 2:
+				c := "foreign\n"
+				if e.Var == 0 {
+					c = foreignContext
+				}
+				os.WriteFile(val, []byte(c), 0o644)
+			}
+		}
+		os.Setenv(name, val)
+	}
+	return foreignDir, paths, restore, nil
+}
+
+func fileState(p string) string {
+	b, err := os.ReadFile(p)
+	if err != nil {
+		return "<absent>"
+	}
+	return "content:" + string(b)
+}
+
+// queryVars: the six contract variables, then the variables of the case's environment
+func (in Input) queryVars() []int {
+	ks := []int{0, 1, 2, 3, 4, 5}
+	seen := map[int]bool{0: true, 1: true, 2: true, 3: true, 4: true, 5: true}
+	for _, e := range in.Env {
+		if !seen[e.Var] {
+			seen[e.Var] = true
+			ks = append(ks, e.Var)
+		}
+	}
+	return ks
+}
+
+// classify what the hook found under the queried variables
+func envView(in Input, c *opsim.Call, tmpDir, foreignDir string) []EnvVal {
+	var out []EnvVal
+	for _, k := range in.queryVars() {
+		raw, present := c.Hello.Env[varName(k)]
+		ev := EnvVal{Var: k, Kind: "unknown", Raw: raw}
+		switch {
+		case !present:
+			ev.Kind, ev.Raw = "absent", ""
+		default:
+			for _, e := range in.Env {
+				if e.Var == k && e.value(foreignDir) == raw {
+					ev.Kind, ev.N, ev.Raw = "foreign", e.Val, ""
+				}
+			}
+			if ev.Kind == "unknown" && filepath.Dir(raw) == tmpDir {
+				if _, err := os.Stat(raw); err == nil {
+					for f, infix := range ownInfix {
+						if strings.Contains(filepath.Base(raw), infix) {
+							ev.Kind, ev.N, ev.Raw = "own", f, ""
+						}
+					}
+				}
+			}
+		}
+		out = append(out, ev)
+	}
+	return out
 }
 
 func (in Input) text() string { return strings.Join(in.Parts, "") }
 
 type Obs struct {
-	Started        bool   `json:"started"`
-	CwdIsHookDir   bool   `json:"cwd_is_hook_dir"`
-	EnvOK          bool   `json:"env_ok"`
-	ContextMatches bool   `json:"context_matches"`
-	FilesEmpty     bool   `json:"files_empty"`
-	PathsDistinct  bool   `json:"paths_distinct"`
-	TmpDuring      int    `json:"tmp_during"`
-	Status         string `json:"status"` // success fail none
-	TmpAfter       int    `json:"tmp_after"`
-	MetricApplied  bool   `json:"metric_applied"`
-	PatchApplied   bool   `json:"patch_applied"`
-	Note           string `json:"note,omitempty"`
+	Started        bool       `json:"started"`
+	CwdIsHookDir   bool       `json:"cwd_is_hook_dir"`
+	EnvOK          bool       `json:"env_ok"`
+	ContextMatches bool       `json:"context_matches"`
+	FilesEmpty     bool       `json:"files_empty"`
+	PathsDistinct  bool       `json:"paths_distinct"`
+	Envs           [][]EnvVal `json:"envs,omitempty"`  // per execution: what the hook found under the queried variables
+	ForeignTouched bool       `json:"foreign_touched"` // a file named by the operator's own environment was created or changed
+	TmpDuring      int        `json:"tmp_during"`
+	Status         string     `json:"status"` // success fail none
+	TmpAfter       int        `json:"tmp_after"`
+	MetricApplied  bool       `json:"metric_applied"`
+	PatchApplied   bool       `json:"patch_applied"`
+	Note           string     `json:"note,omitempty"`
 }
 
 var kinds = []string{"empty", "valid", "truncated", "wrongtype"}
@@ -117,6 +277,24 @@ func hookPath(nameLen int) string {
 
 func Run(in Input) Obs {
 	var o Obs
+	foreignDir, foreignPaths, restore, eerr := setOperatorEnv(in)
+	defer restore()
+	if eerr != nil {
+		o.Note = "environment: " + eerr.Error()
+		return o
+	}
+	before := map[string]string{}
+	for _, p := range foreignPaths {
+		before[p] = fileState(p)
+	}
+	touched := func() bool {
+		for _, p := range foreignPaths {
+			if fileState(p) != before[p] {
+				return true
+			}
+		}
+		return false
+	}
 	h := opsim.Hook{Id: 1, Sched: []opsim.SB{{Name: 1, Queue: 1, Cron: 1}, {Name: 2, Queue: 2, Cron: 2}}, Path: hookPath(in.NameLen)}
 	s, err := opsim.NewSim(opsim.Input{Cfg: []opsim.Hook{h}})
 	if s != nil {
@@ -131,7 +309,14 @@ func Run(in Input) Obs {
 	if in.Concurrent {
 		st = s.Do(opsim.Action{Kind: "Tick", C: 2})
 	}
-	c1 := s.OpenCall(1)
+	// (if the hook read a context that is not its task's, opsim cannot tell the queue: key -1)
+	q1 := 1
+	c1 := s.OpenCall(q1)
+	if c1 == nil {
+		if c := s.OpenCall(-1); c != nil {
+			q1, c1 = -1, c
+		}
+	}
 	if c1 == nil {
 		// the execution did not start (e.g. temp files could not be created): what is left?
 		o.Status = statusOf(st, 1, 0)
@@ -139,6 +324,7 @@ func Run(in Input) Obs {
 		s.Do(opsim.Action{Kind: "Stop"})
 		time.Sleep(5 * time.Millisecond)
 		o.TmpAfter = countFiles(s.TmpDir())
+		o.ForeignTouched = touched()
 		return o
 	}
 	o.Started = true
@@ -159,6 +345,7 @@ func Run(in Input) Obs {
 	o.EnvOK, o.FilesEmpty, o.PathsDistinct = true, true, true
 	seen := map[string]bool{}
 	for _, c := range calls {
+		o.Envs = append(o.Envs, envView(in, c, s.TmpDir(), foreignDir))
 		for _, v := range vars {
 			p := c.Hello.Env[v]
 			if p == "" || filepath.Dir(p) != s.TmpDir() {
@@ -196,11 +383,14 @@ func Run(in Input) Obs {
 	if in.Concurrent && len(calls) == 2 {
 		s.Do(opsim.Action{Kind: "Finish", Q: 2, Ok: true})
 	}
-	st = s.Do(opsim.Action{Kind: "Finish", Q: 1, Ok: in.Exit == 0, Exit: in.Exit, Files: files})
+	st = s.Do(opsim.Action{Kind: "Finish", Q: q1, Ok: in.Exit == 0, Exit: in.Exit, Files: files})
 	o.Status = statusOf(st, 1, fail0)
+	o.ForeignTouched = touched()
 	// a failed task is retried at once: end the retry successfully so that nothing stays open
-	if s.OpenCall(1) != nil {
-		s.Do(opsim.Action{Kind: "Finish", Q: 1, Ok: true})
+	for _, q := range []int{1, -1} {
+		if s.OpenCall(q) != nil {
+			s.Do(opsim.Action{Kind: "Finish", Q: q, Ok: true})
+		}
 	}
 	time.Sleep(2 * time.Millisecond)
 	o.TmpAfter = countFiles(s.TmpDir())
@@ -284,17 +474,25 @@ func Render(in Input, obs *Obs, crash string) core.Case {
 	}
 	c := core.Case{}
 	st := map[string]int{"success": 0, "fail": 1, "none": 2, "": 2}[o.Status]
-	c.Coq = fmt.Sprintf("(mkIn %s %s %s %s %s %s %d, mkOb %s %s %s %s %s %s %d %d %d %s %s %s)",
+	c.Coq = fmt.Sprintf("(mkIn %s %s %s %s %s %s %d %s, mkOb %s %s %s %s %s %s %d %d %d %s %s %s %s %s)",
 		core.CoqZ(int64(in.Exit)), in.kindCode("metrics", in.Metrics), in.kindCode("patch", in.Patch), in.kindCode("admission", in.Admission), in.kindCode("conversion", in.Conversion),
 		core.CoqBool(in.Concurrent), in.NameLen,
+		core.CoqList(in.Env, func(e EnvVar) string { return fmt.Sprintf("(%d, %d)", e.Var, e.Val) }),
 		core.CoqBool(o.Started), core.CoqBool(o.CwdIsHookDir), core.CoqBool(o.EnvOK), core.CoqBool(o.ContextMatches),
 		core.CoqBool(o.FilesEmpty), core.CoqBool(o.PathsDistinct), o.TmpDuring, st, max0(o.TmpAfter),
-		core.CoqBool(o.MetricApplied), core.CoqBool(o.PatchApplied), core.CoqBool(crash != "" || o.Note != ""))
+		core.CoqBool(o.MetricApplied), core.CoqBool(o.PatchApplied), core.CoqBool(crash != "" || o.Note != ""),
+		core.CoqList(o.Envs, func(v []EnvVal) string { return core.CoqList(v, coqEnvVal) }), core.CoqBool(o.ForeignTouched))
 	c.JSON = map[string]any{"obs": o, "crash": crash}
 	c.Key = fmt.Sprintf("%d/%s/%s/%s/%s/%v/%d", in.Exit, in.Metrics, in.Patch, in.Admission, in.Conversion, in.Concurrent, in.NameLen)
 	if in.TextFile != "" {
 		c.JSON = map[string]any{"obs": o, "crash": crash, in.TextFile + "_text": in.text()}
 		c.Key += "/" + in.TextFile + "/" + in.text()
+	}
+	if len(in.Env) != 0 {
+		c.Key += "/env"
+		for _, e := range in.Env {
+			c.Key += fmt.Sprintf(":%d=%d", e.Var, e.Val)
+		}
 	}
 	c.Nontrivial = true
 	c.Tags = []string{fmt.Sprintf("exit:%d", in.Exit), "metrics:" + in.Metrics, "patch:" + in.Patch, "admission:" + in.Admission, "conversion:" + in.Conversion, fmt.Sprintf("concurrent:%v", in.Concurrent)}
@@ -304,7 +502,128 @@ func Render(in Input, obs *Obs, crash string) core.Case {
 	if in.TextFile != "" {
 		c.Tags = append(c.Tags, "text:"+in.TextFile, "mut:"+in.Mut, "mut:"+in.TextFile+":"+in.Mut)
 	}
+	c.Tags = append(c.Tags, in.envTags()...)
 	return c
+}
+
+func coqEnvVal(v EnvVal) string {
+	switch v.Kind {
+	case "absent":
+		return fmt.Sprintf("(%d, None)", v.Var)
+	case "own":
+		return fmt.Sprintf("(%d, Some (Own %d))", v.Var, v.N)
+	case "foreign":
+		return fmt.Sprintf("(%d, Some (Foreign %d))", v.Var, v.N)
+	}
+	return fmt.Sprintf("(%d, Some Unknown)", v.Var)
+}
+
+// tags of the operator-environment class: env:none / contract / unrelated / both, one tag per
+// contract variable present, envdup when a variable occurs twice
+func (in Input) envTags() []string {
+	if len(in.Env) == 0 {
+		return []string{"env:none"}
+	}
+	var tags []string
+	contract, unrelated, dup := false, false, false
+	seen := map[int]bool{}
+	for _, e := range in.Env {
+		if seen[e.Var] {
+			dup = true
+			continue
+		}
+		seen[e.Var] = true
+		if e.Var < len(contractVars) {
+			contract = true
+			tags = append(tags, "envvar:"+contractVars[e.Var], fmt.Sprintf("envfile:%s", []string{"absent", "empty", "content"}[e.Val%3]))
+		} else {
+			unrelated = true
+		}
+	}
+	switch {
+	case contract && unrelated:
+		tags = append(tags, "env:both")
+	case contract:
+		tags = append(tags, "env:contract")
+	default:
+		tags = append(tags, "env:unrelated")
+	}
+	if dup {
+		tags = append(tags, "envdup")
+	}
+	sort.Strings(tags)
+	// envfile tags may repeat
+	out := tags[:0]
+	for i, t := range tags {
+		if i == 0 || t != tags[i-1] {
+			out = append(out, t)
+		}
+	}
+	return out
+}
+
+// one case of the operator-environment class
+func genEnvCase(r *core.Rng) Input {
+	exits := []int{0, 0, 0, 1, 2, 137}
+	in := Input{Exit: exits[r.Intn(len(exits))], Metrics: "empty", Patch: "empty", Admission: "empty", Conversion: "empty", Concurrent: r.Chance(25)}
+	// outputs: mostly something to lose
+	for f := 0; f < 4; f++ {
+		k := "empty"
+		switch x := r.Intn(10); {
+		case x < 5:
+			k = "valid"
+		case x < 6:
+			k = "truncated"
+		case x < 7:
+			k = "wrongtype"
+		}
+		switch f {
+		case 0:
+			in.Metrics = k
+		case 1:
+			in.Patch = k
+		case 2:
+			in.Admission = k
+		case 3:
+			in.Conversion = k
+		}
+	}
+	n := 1 + r.Intn(4)
+	for j := 0; j < n; j++ {
+		if r.Chance(65) {
+			in.Env = append(in.Env, EnvVar{Var: r.Intn(6), Val: r.Intn(6)})
+		} else {
+			in.Env = append(in.Env, EnvVar{Var: 6 + r.Intn(4), Val: r.Intn(6)})
+		}
+	}
+	return in
+}
+
+// fixed cases of the operator-environment class, smallest first
+func envCorpus() []Input {
+	e := func(exit int, m, p, a, cv string, conc bool, env ...EnvVar) Input {
+		return Input{Exit: exit, Metrics: m, Patch: p, Admission: a, Conversion: cv, Concurrent: conc, Env: env}
+	}
+	ins := []Input{
+		e(0, "empty", "empty", "empty", "empty", false, EnvVar{1, 1}),
+		e(0, "valid", "valid", "empty", "empty", false, EnvVar{1, 1}),
+		e(0, "empty", "empty", "empty", "empty", false, EnvVar{0, 2}),
+		e(0, "empty", "empty", "empty", "valid", false, EnvVar{2, 1}),
+		e(0, "empty", "empty", "valid", "empty", false, EnvVar{3, 1}),
+		e(0, "empty", "empty", "valid", "empty", false, EnvVar{4, 1}),
+		e(0, "empty", "valid", "empty", "empty", false, EnvVar{5, 1}),
+		e(0, "valid", "empty", "empty", "empty", false, EnvVar{1, 0}),
+		e(0, "valid", "empty", "empty", "empty", false, EnvVar{1, 2}),
+		e(1, "valid", "valid", "empty", "empty", false, EnvVar{1, 1}),
+		e(0, "empty", "empty", "empty", "empty", false, EnvVar{6, 0}, EnvVar{7, 1}),
+		e(0, "valid", "valid", "valid", "valid", false, EnvVar{0, 2}, EnvVar{1, 2}, EnvVar{2, 2}, EnvVar{3, 2}, EnvVar{4, 2}, EnvVar{5, 2}),
+		e(0, "valid", "valid", "empty", "empty", true, EnvVar{7, 1}, EnvVar{1, 0}, EnvVar{0, 1}),
+		e(0, "valid", "empty", "empty", "empty", false, EnvVar{1, 1}, EnvVar{6, 0}, EnvVar{1, 2}, EnvVar{6, 3}),
+		e(0, "truncated", "empty", "empty", "empty", false, EnvVar{1, 1}),
+	}
+	long := e(0, "empty", "empty", "empty", "empty", false, EnvVar{1, 1}, EnvVar{8, 0})
+	long.NameLen = 190
+	return append(ins, long)
 }
 
 func max0(n int) int {
@@ -328,6 +647,10 @@ func Gen(r *core.Rng, tier string) ([]core.In[Input], bool) {
 	// literal texts: one per mutation kind and file
 	for _, in := range textCorpus() {
 		add(in, "text-corpus")
+	}
+	// the operator's own environment holds contract variables / unrelated variables
+	for _, in := range envCorpus() {
+		add(in, "env-corpus")
 	}
 	exits := []int{0, 1, 2, 137}
 	if tier == "quick" {
@@ -356,7 +679,31 @@ func Gen(r *core.Rng, tier string) ([]core.In[Input], bool) {
 		for i := 0; i < 60; i++ {
 			add(Input{Exit: exits[r.Intn(4)], Metrics: kinds[r.Intn(4)], Patch: kinds[r.Intn(4)], Admission: kinds[r.Intn(4)], Conversion: kinds[r.Intn(4)], Concurrent: r.Chance(30)}, "random")
 		}
+		er := r.Fork()
+		for i := 0; i < 56; i++ {
+			add(genEnvCase(er), "env")
+		}
 		return ins, false
+	}
+	nEnv := 300
+	if tier == "thorough" {
+		nEnv = 1500
+		// small scope, exhaustive: every single contract variable x kind of foreign file x exit 0/1 x nothing / everything written
+		for v := 0; v < 6; v++ {
+			for val := 0; val < 3; val++ {
+				for _, ex := range []int{0, 1} {
+					for _, k := range []string{"empty", "valid"} {
+						add(Input{Exit: ex, Metrics: k, Patch: k, Admission: k, Conversion: k, Env: []EnvVar{{Var: v, Val: val}}}, "env-exhaustive")
+					}
+				}
+			}
+		}
+	}
+	{
+		er := r.Fork()
+		for i := 0; i < nEnv; i++ {
+			add(genEnvCase(er), "env")
+		}
 	}
 	if tier == "thorough" {
 		genTexts(r.Fork(), "metrics", 4200, add)
@@ -389,6 +736,6 @@ var _ = sort.Ints
 
 var Driver = core.Driver[Input, Obs]{
 	Spec: core.Spec{Property: "C12", Imports: []string{"C12_Model", "C12_Spec", "C12_Corr"}, Corr: "C12_Corr", ShrinkKey: "parts",
-		Rule: "one hook with two schedule bindings in two queues run by the real operator; the scripted hook reports cwd, environment, context file, initial content of the output files and the temp-dir listing, then ends with exit code in {0,1,2,137} and each of the four output files in {empty, valid, truncated, wrong type}; observed: task status, temp dir afterwards, whether the metric / the patch took effect, path uniqueness across two concurrent executions; quick = every exit code x every single-file state + 60 random combinations + corpus; thorough = the full product (exhaustive); the longname stream uses hook names whose temp-file names straddle the 255-byte file-name limit; every case is non-trivial and distinct by its parameters; TEXT cases: one of the metrics / admission-response / conversion-response files holds a literal text (the model reads it byte by byte): valid texts (1-4 metric operations in the documented forms, one response object; varied whitespace, key order, escapes, UTF-8, number forms) and texts broken by a mutation grammar (tags mut:<kind>): trunc, del/ins/dup of one structural byte, stray closer/opener/separator at a value boundary, value of another JSON type, garbage after valid, whitespace only, only a closer, control byte in a string, bad escape, bad number, case-changed keys, unknown keys, null values, duplicate keys, violated metric rules, non-object documents; a fixed corpus holds texts of every kind; quick = corpus + 180 generated texts, thorough = corpus + 5670, search = corpus + 1680; distinct = distinct by parameters and text"},
+		Rule: "one hook with two schedule bindings in two queues run by the real operator; the scripted hook reports cwd, environment, context file, initial content of the output files and the temp-dir listing, then ends with exit code in {0,1,2,137} and each of the four output files in {empty, valid, truncated, wrong type}; observed: task status, temp dir afterwards, whether the metric / the patch took effect, path uniqueness across two concurrent executions; quick = every exit code x every single-file state + 60 random combinations + corpus; thorough = the full product (exhaustive); the longname stream uses hook names whose temp-file names straddle the 255-byte file-name limit; every case is non-trivial and distinct by its parameters; TEXT cases: one of the metrics / admission-response / conversion-response files holds a literal text (the model reads it byte by byte): valid texts (1-4 metric operations in the documented forms, one response object; varied whitespace, key order, escapes, UTF-8, number forms) and texts broken by a mutation grammar (tags mut:<kind>): trunc, del/ins/dup of one structural byte, stray closer/opener/separator at a value boundary, value of another JSON type, garbage after valid, whitespace only, only a closer, control byte in a string, bad escape, bad number, case-changed keys, unknown keys, null values, duplicate keys, violated metric rules, non-object documents; a fixed corpus holds texts of every kind; quick = corpus + 180 generated texts, thorough = corpus + 5670, search = corpus + 1680; distinct = distinct by parameters and text; ENV cases (tags env:contract / env:unrelated / env:both, envvar:<NAME>, envfile:<absent|empty|content>, envdup): the operator's OWN environment is set (os.Setenv in the operator's process before it loads the hook, restored afterwards; contract variables the case does not mention are removed) to 1-4 variables: the six contract variables with foreign values (a path outside the temp directory: no such file / an empty file / a file with content) and unrelated variables; the scripted hook reports what it finds under the six variables and under every variable of the case, classified as this execution's own file of kind f / the operator's value / absent / other, compared with the model's child environment; after the run the foreign files are checked for changes; quick = 16 fixed + 56 generated, thorough = 16 + 72 exhaustive single-variable cases + 1500, search = 16 + 300"},
 	Gen: Gen, Run: Run, Render: Render, PerShard: 60, Workers: 14, CaseTimout: 40 * time.Second,
 }
